@@ -7,7 +7,7 @@ CONSTANTS
   ShapeSet = "wide"
   Sizes = {1, 3, 7}
   Spills = {0, 3, 6, 12}
-  WPCs = {1, 2}
+  WPCs = {1, 2, 3}
   Hdrs = {0, 2, 4}
   Ftrs = {0, 2}
   MinParts = {1}
